@@ -447,6 +447,17 @@ func genC09(g *gen) {
 					continue
 				}
 				seed := g.bytes(48)
+				if h == 4 && k == 0 {
+					// boundary secrets: every 12-bit group 0xFFF (last word of the list) / 0x000 (first word) / both alternating
+					switch hf {
+					case 0:
+						seed = bytes.Repeat([]byte{0xff}, 48)
+					case 1:
+						seed = make([]byte, 48)
+					case 2:
+						seed = bytes.Repeat([]byte{0xff, 0xf0, 0x00}, 16)
+					}
+				}
 				id++
 				a, b, c := fmt.Sprintf("a%d", id), fmt.Sprintf("b%d", id), fmt.Sprintf("c%d", id)
 				g.op("x.new %s %s %d %d 0", a, hx(seed), h, hf)
@@ -488,6 +499,12 @@ func genC09(g *gen) {
 	for i := 0; i < nd; i++ {
 		var seed [48]byte
 		copy(seed[:], g.bytes(48))
+		if i == 0 {
+			copy(seed[:], bytes.Repeat([]byte{0xff}, 48)) // mnemonic made of the last word only
+		}
+		if i == 1 {
+			seed = [48]byte{} // hex seed with leading zero digits, mnemonic made of the first word only
+		}
 		out := g.op("dl.new d%d %s", i, hx(seed[:]))
 		d0, _ := dilithium.NewDilithiumFromSeed(seed)
 		hs := d0.GetHexSeed()
